@@ -305,6 +305,50 @@ def cases(impl, thorough=False):
         [T((2, 1, 4, 4))], lambda a: (2, 3))
     add('Sequential_eval', ('seq', [('Linear', {'in_features': 3, 'out_features': 3}), ('BatchNorm1d', {'num_features': 3}), ('Dropout', {'p': 0.5}), ('Sigmoid', {})], False),
         [T((4, 3))], lambda a: (4, 3))
+
+    # ---- boundary values of numeric / structural parameters on which a branch of the implementation depends --------------
+    for pv in (0.0, 0.5, 1.0):
+        layer('Dropout_p%s' % str(pv).replace('.', '_'), 'Dropout', {'p': pv}, [T((4, 3))], lambda a: a.shape)
+    for sl in (0, 1, 1.5):
+        add('leaky_relu_slope_%s' % str(sl).replace('.', '_'), ('NF', 'leaky_relu'), [T((2, 3), 'nonzero'), sl], lambda a: a.shape)
+        layer('LeakyReLU_slope_%s' % str(sl).replace('.', '_'), 'LeakyReLU', {'negative_slope': sl}, [T((2, 3), 'nonzero')], lambda a: a.shape, (True,))
+    for mv in (0.0, 1.0, None):
+        layer('BatchNorm1d_momentum_%s' % str(mv).replace('.', '_'), 'BatchNorm1d', {'num_features': 3, 'momentum': mv}, [T((5, 3))], lambda a: a.shape)
+    layer('BatchNorm1d_eps0', 'BatchNorm1d', {'num_features': 3, 'eps': 0.0}, [T((5, 3))], lambda a: a.shape)
+    layer('BatchNorm2d_eps0_m1', 'BatchNorm2d', {'num_features': 2, 'eps': 0.0, 'momentum': 1.0}, [T((3, 2, 2, 2))], lambda a: a.shape)
+    for nm, st in (('none', None), ('eq', 2), ('gt', 3)):
+        add('max_pool1d_stride_' + nm, ('NF', 'max_pool1d'), [T((1, 2, 7)), 2, st], lambda a, st=st: tuple(tF.max_pool1d(tt(a), 2, st).shape))
+        add('avg_pool2d_stride_' + nm, ('NF', 'avg_pool2d'), [T((1, 2, 6, 6)), 2, st], lambda a, st=st: tuple(tF.avg_pool2d(tt(a), 2, st).shape))
+        layer('MaxPool2d_stride_' + nm, 'MaxPool2d', {'kernel_size': 2, 'stride': st}, [T((1, 2, 6, 6))], lambda a, st=st: tuple(tF.max_pool2d(tt(a), 2, st).shape), (True,))
+    for pd in (0, 1):
+        for dl in (1, 2):
+            add('max_pool2d_p%d_d%d' % (pd, dl), ('NF', 'max_pool2d'), [T((1, 2, 6, 6)), 3, 1, pd, dl], lambda a, pd=pd, dl=dl: tuple(tF.max_pool2d(tt(a), 3, 1, pd, dl).shape))
+            add('avg_pool1d_p%d_d%d' % (pd, dl), ('NF', 'avg_pool1d'), [T((1, 2, 8)), 2, 1, pd, dl], None)
+            add('conv2d_p%d_d%d' % (pd, dl), ('NF', 'conv2d'), [T((1, 2, 6, 6)), T((3, 2, 2, 2)), T((3,)), 1, pd, dl],
+                lambda a, w, b, pd=pd, dl=dl: tuple(tF.conv2d(tt(a), tt(w), tt(b), 1, pd, dl).shape))
+    for pad in ('valid', 'same', 0):
+        layer('Conv1d_pad_%s' % pad, 'Conv1d', {'in_channels': 2, 'out_channels': 3, 'kernel_size': 3, 'padding': pad}, [T((2, 2, 6))],
+              lambda a, pad=pad: (2, 3, 6 if pad == 'same' else 4), (True,))
+        layer('Conv2d_pad_%s' % pad, 'Conv2d', {'in_channels': 2, 'out_channels': 3, 'kernel_size': 3, 'padding': pad, 'bias': pad != 0}, [T((1, 2, 5, 5))],
+              lambda a, pad=pad: (1, 3, 5, 5) if pad == 'same' else (1, 3, 3, 3), (True,))
+    layer('Conv1d_nobias', 'Conv1d', {'in_channels': 2, 'out_channels': 3, 'kernel_size': 2, 'bias': False}, [T((2, 2, 6))], lambda a: (2, 3, 5), (True,))
+    for ex in (0, 1, 2, 0.5, -1):
+        add('pow_exp_%s' % str(ex).replace('.', '_').replace('-', 'm'), ('method', '__pow__'), [T((2, 3), 'pos'), ex], lambda a: a.shape)
+    for bs in (1, 2, 0.5):
+        add('rpow_base_%s' % str(bs).replace('.', '_'), ('method', '__rpow__'), [T((2, 3)), bs], lambda a: a.shape)
+    for dm in (0, -1):
+        add('softmax_dim_%d' % dm, ('NF', 'softmax'), [T((3, 4)), dm], lambda a: a.shape)
+        add('log_softmax_dim_%d' % dm, ('NF', 'log_softmax'), [T((3, 4)), dm], lambda a: a.shape)
+        add('Softmax_layer_dim_%d' % dm, ('layer', 'Softmax', {'dim': dm}, True), [T((3, 4))], lambda a: a.shape)
+    add('squeeze_first', ('TF', 'squeeze'), [T((1, 3)), 0], lambda a: (3,))
+    add('squeeze_last_not1', ('TF', 'squeeze'), [T((2, 3)), -1], lambda a: (2, 3))
+    add('flatten_same_dim', ('TF', 'flatten'), [T((2, 3, 4)), 1, 1], lambda a: (2, 3, 4))
+    add('flatten_all_neg', ('TF', 'flatten'), [T((2, 3, 4)), -3, -1], lambda a: (24,))
+    add('flatten_last_two', ('TF', 'flatten'), [T((2, 3, 4)), -2], lambda a: (2, 12))
+    for kd in (False, True):
+        for fn in ('sum', 'mean', 'max', 'min'):
+            add('%s_all_keep%d' % (fn, kd), ('TF', fn), [T((2, 3)), None, kd], lambda a, kd=kd: (1, 1) if kd else ())
+            add('%s_dim1_keep%d' % (fn, kd), ('TF', fn), [T((2, 3)), 1, kd], lambda a, kd=kd: (2, 1) if kd else (2,))
     # ---- a leaf that is the root of backward ------------------------------------------------------------------------------------
     add('leaf_root', ('leaf',), [T((2, 3))], lambda a: a.shape)
     return C
@@ -471,6 +515,11 @@ def observe(impl, info, case, dtype, up_dtype, rng, np_seed):
            'operand_dtypes': [str(t.dtype) for t in b.tensors], 'param_dtypes': [str(p.dtype) for p in b.params],
            'is_ndarray': isinstance(o0.data, np.ndarray),
            'created': sorted(set(created)), 'python_scalar_wraps': sorted(set(c for c in created if c[0] == 'python'))}
+    try:
+        red = o0.sum()           # the 0-d reduction of the result keeps its dtype too
+        obs['sum_dtype'], obs['sum_shape'] = str(red.dtype), tuple(red.shape)
+    except Exception as ex:
+        obs['sum_dtype'], obs['sum_shape'] = 'raises %r' % (ex,), None
     ref = case.get('ref')
     if ref is not None:
         arrs = [d.astype(np.float64) if str(d.dtype).startswith('float') else d for d in b.datas]
@@ -525,6 +574,8 @@ def judge(obs, dtype):
                 bad.append(('narrow-intermediate', 'every tensor created while applying the call to %s operands is %s' % (dtype, dtype),
                             'a %s tensor of shape %s built from %s data' % (dt, list(shp), kind)))
                 break
+    if not obs['mixed'] and 'sum_dtype' in obs and (obs['sum_dtype'] != dtype or obs['sum_shape'] is None or tuple(obs['sum_shape']) != ()):
+        bad.append(('reduction-dtype', [dtype, []], [obs['sum_dtype'], None if obs['sum_shape'] is None else list(obs['sum_shape'])]))
     if not obs['is_ndarray']:
         bad.append(('result-not-ndarray', 'ndarray', 'other'))
     if 'ref_shape' in obs and tuple(obs['ref_shape']) != tuple(obs['result_shape']):
